@@ -59,7 +59,7 @@ class FakeTerminal:
 
 
 class World:
-    def __init__(self, config: dict, instance: str, modes: list[str], uid: int):
+    def __init__(self, config: dict, instance: str, modes: list[str], uid: int, qen: bool = True):
         self.cfg = config
         self.instance = instance  # "tty" | "cell"
         self.lockname = "_tty_lock" if instance == "tty" else "_cell_size_lock"
@@ -73,6 +73,8 @@ class World:
         self.replies: dict[int, list] = {}
         self.counter = 0
         self._make_proc(0, None)
+        # configuration of the root process at its first Process.start() (disable_queries() or not)
+        dict.__setitem__(self.procs[0], "_queries_enabled", bool(qen))
         for t in self.threads_of(0):
             self.ctl.spawn(t, self._program(t))
         for t in self.threads_of(0):
@@ -215,7 +217,10 @@ class World:
     def step(self, op: dict):
         act, t = op["act"], op["t"]
         ctl = self.ctl
-        if act == "Reply":
+        if act == "ToggleQ":
+            g0 = self.procs[0]
+            dict.__setitem__(g0, "_queries_enabled", not dict.__getitem__(g0, "_queries_enabled"))
+        elif act == "Reply":
             if self.instance == "tty":
                 if not self.term.inq:
                     raise Divergence("OwnReply", "reply", "the specification's terminal answers a request the code never wrote")
@@ -238,6 +243,13 @@ class World:
             # global): if the code decides without reading G, the step is a no-op for the real thread
             noop = (act == "STest" and have in ("newlock", "release", "spawn")) or (
                 act == "SCopy" and have in ("release", "spawn"))
+            if act == "SNew" and have in ("release", "spawn"):
+                raise Divergence(
+                    "MutualExclusion", "SNew:no-process-lock-created",
+                    f"process {self.proc_of(t)} starts a process while it still uses its thread lock: it has to switch to a "
+                    f"process lock and hand it over; the real start wrapper does neither (_queries_enabled="
+                    f"{dict.__getitem__(self.procs[0], '_queries_enabled')}): parent and child keep private locks",
+                )
             if act == "SCopy" and have == "newlock":
                 raise Divergence(
                     "MutualExclusion", "SCopy:creates-second-process-lock",
@@ -328,8 +340,10 @@ def modes_of(edge: dict, np_: int) -> list[str]:
 def replay_walk(config: dict, instance: str, walk: list[dict], uid: int):
     """Returns None, or (index, edge, Divergence) for the first divergence."""
     modes = modes_of(walk[0], config["np"])
+    view = walk[0]["from"]
+    qen = bool(view[9]) if len(view) > 9 else True  # View = <<..., mode, qen, ntog>>
     try:
-        w = World(config, instance, modes, uid)
+        w = World(config, instance, modes, uid, qen)
     except Divergence as d:
         return 0, walk[0], d, "(setup)"
     try:
